@@ -254,3 +254,4 @@ def run(chk):
     chunked_fixup(chk, prog)
     redirect_set(chk, prog, st)
     shared.nothing_after_body(chk, prog, "R6")
+    shared.response_reads(chk, prog, "R7.reads")
